@@ -14,6 +14,13 @@ package main
 // anything else = Spec violation.  A concurrent result that differs from the sequential one is
 // a Spec violation.  A first-use path is exercised once per process, hence one child per
 // schedule.
+//
+// "hold" schedules (c09HoldOps / c09RunHold) look at values an evaluation KEEPS while the others
+// run: every evaluation has its own payload, produces values from it, parks at a barrier (or
+// yields / sleeps / goes on), and then observes what it holds.  A result that aliases pooled or
+// scratch storage shared between evaluations comes back as another evaluation's payload.  A
+// failing schedule is re-run in its smallest form (2 evaluations, the one operation, one round,
+// barrier, one P) and that is reported first.
 
 import (
 	"bytes"
@@ -320,6 +327,9 @@ type c09Job struct {
 	Procs   int      `json:"procs"`
 	Threads int      `json:"threads"`
 	Calls   []int    `json:"calls"` // clones: argument of each concurrent call
+	Sync    string   `json:"sync"`    // hold: barrier | yield | sleep | none (what hold_sync() does in the concurrent run)
+	PayLen  int      `json:"pay_len"` // hold: length of every evaluation's own payload
+	Plain   bool     `json:"plain"`   // run the child without the race detector (undisturbed scheduling and sync.Pool behaviour)
 }
 
 type c09Out struct {
@@ -537,12 +547,271 @@ func c09RunCloneRerun(job *c09Job, conc bool) []string {
 	return res
 }
 
+// ---------------------------------------------------------------------------------------
+// "hold" schedules: results of earlier operations must not change when other evaluations run.
+//
+// Every evaluation k has its OWN payload (global `payload`, same length for all, different
+// content), produces values from it with a set of builtins/module functions, keeps them in
+// variables, lets the other evaluations run (hold_sync(): an all-arrived barrier, a yield, a
+// short sleep or nothing), and only then observes what it holds – twice, with another
+// hold_sync() in between.  Alone, hold_sync() does nothing.  A result that aliases storage
+// shared between evaluations (a package-level pool / scratch buffer / cache handed out without
+// copying) shows up as another evaluation's payload, a decode error, or a race report outside
+// the inventory.
+
+var c09HoldOps = []struct{ tag, prod, obs string }{
+	{"gzip", `encode($P, "gzip")`, `string(decode($H, "gzip"))`},
+	{"gzip-raw", `encode($P, "gzip")`, `$H`},
+	{"gunzip", `decode(encode($P, "gzip"), "gzip")`, `string($H)`},
+	{"base64", `encode($P, "base64")`, `string(decode($H, "base64"))`},
+	{"unbase64", `decode(encode($P, "base64"), "base64")`, `string($H)`},
+	{"base32", `encode($P, "base32")`, `string(decode($H, "base32"))`},
+	{"hex", `encode($P, "hex")`, `string(decode($H, "hex"))`},
+	{"unhex", `decode(encode($P, "hex"), "hex")`, `string($H)`},
+	{"json", `encode([$P, pid], "json")`, `decode($H, "json")`},
+	{"urlquery", `encode($P, "urlquery")`, `decode($H, "urlquery")`},
+	{"csv", `encode([[$P, "x"], ["y", $P]], "csv")`, `decode($H, "csv")`},
+	{"byte_slice", `byte_slice($P)`, `string($H)`},
+	{"buffer", `buffer($P)`, `string($H)`},
+	{"bytes-list", `list(byte_slice($P))`, `$H`},
+	{"float_slice", `float_slice([pid, len($P), r])`, `$H`},
+	{"sprintf", `sprintf("%s/%d", $P, pid)`, `$H`},
+	{"fmt.sprintf", `fmt.sprintf("%v|%v", $P, [pid])`, `$H`},
+	{"to_upper", `strings.to_upper($P)`, `$H`},
+	{"repeat", `strings.repeat($P, 2)`, `$H`},
+	{"split", `strings.split($P, ":")`, `$H`},
+	{"fields", `strings.fields(strings.replace_all($P, ":", " "))`, `$H`},
+	{"trim", `strings.trim_space("  " + $P + " ")`, `$H`},
+	{"concat", `$P[1:5] + $P`, `$H`},
+	{"json.marshal", `json.marshal({"p": $P, "k": pid})`, `json.unmarshal($H)`},
+	{"chars", `$P.split("")`, `"".join($H)`},
+	{"sorted", `sorted($P.split(""))`, `$H`},
+	{"reversed", `reversed($P.split(""))`, `$H`},
+	{"chunk", `chunk($P.split(""), 3)`, `$H`},
+	{"list.map", `[$P, pid].map(func(x) { return string(x) })`, `$H`},
+	{"map", `{"p": $P, "k": pid}`, `[$H["p"], $H["k"]]`},
+	{"set", `set($P.split(""))`, `len($H)`},
+	{"sha256", `hash($P, "sha256")`, `encode($H, "hex")`},
+	{"md5", `hash($P, "md5")`, `encode($H, "hex")`},
+	{"base64.encode", `base64.encode($P)`, `string(base64.decode($H))`},
+	{"bytes.repeat", `bytes.repeat(byte_slice($P), 2)`, `string($H)`},
+	{"regexp", `regexp.compile("[a-z]+").find_all($P)`, `$H`},
+	{"filepath.join", `filepath.join($P, "a", "b")`, `$H`},
+	{"error-value", `try(func() { error($P) }, func(e) { return e })`, `string($H)`},
+	{"closure", `func() { v := $P + "!"; return func() { return v } }()`, `$H()`},
+}
+
+func c09HoldTag(tag string) int {
+	for i, o := range c09HoldOps {
+		if o.tag == tag {
+			return i
+		}
+	}
+	return -1
+}
+
+// the program every evaluation of a hold schedule runs
+func c09HoldSrc(ops []int, rounds int) string {
+	var b strings.Builder
+	fmt.Fprintf(&b, "out := []\nfor r := 0; r < %d; r++ {\n\tp := sprintf(\"%%s#%%d\", payload, r)\n", rounds)
+	for i, o := range ops {
+		fmt.Fprintf(&b, "\th%d := %s\n", i, strings.ReplaceAll(c09HoldOps[o].prod, "$P", "p"))
+	}
+	b.WriteString("\thold_sync()\n")
+	for i, o := range ops {
+		fmt.Fprintf(&b, "\ta%d := %s\n", i, strings.ReplaceAll(c09HoldOps[o].obs, "$H", fmt.Sprintf("h%d", i)))
+	}
+	b.WriteString("\thold_sync()\n")
+	for i, o := range ops {
+		fmt.Fprintf(&b, "\tout.append([%q, a%d, %s])\n", "<"+c09HoldOps[o].tag+">", i, strings.ReplaceAll(c09HoldOps[o].obs, "$H", fmt.Sprintf("h%d", i)))
+	}
+	b.WriteString("}\nout")
+	return b.String()
+}
+
+func c09HoldPayload(k, n int) string {
+	if n < 1 {
+		n = 1
+	}
+	return fmt.Sprintf("ev%02d:", k) + strings.Repeat(string(rune('a'+k%26)), n)
+}
+
+type c09HoldSpec struct {
+	n, procs, rounds, payLen int
+	ops                      []int
+	sync                     string
+	share, plain             bool
+}
+
+func (h c09HoldSpec) job() (*c09Job, string) {
+	var tags []string
+	for _, o := range h.ops {
+		tags = append(tags, c09HoldOps[o].tag)
+	}
+	job := &c09Job{Kind: "hold", Srcs: []string{c09HoldSrc(h.ops, h.rounds)}, Share: h.share, Procs: h.procs, Threads: h.n, Sync: h.sync, PayLen: h.payLen, Plain: h.plain}
+	key := fmt.Sprintf("hold n=%d procs=%d sync=%s rounds=%d paylen=%d share=%v race-detector=%v ops=%s: every evaluation k runs, with its own global payload=\"ev<k>:\"+%d x letter k: %s",
+		h.n, h.procs, h.sync, h.rounds, h.payLen, h.share, !h.plain, strings.Join(tags, ","), h.payLen, strings.ReplaceAll(job.Srcs[0], "\n", " ; "))
+	return job, key
+}
+
+// reusable all-arrived barrier; an evaluation that ends (normally or not) leaves it
+type c09Barrier struct {
+	mu      sync.Mutex
+	cond    *sync.Cond
+	n, wait int
+	gen     int
+}
+
+func c09NewBarrier(n int) *c09Barrier {
+	b := &c09Barrier{n: n}
+	b.cond = sync.NewCond(&b.mu)
+	return b
+}
+
+func (b *c09Barrier) arrive() {
+	b.mu.Lock()
+	defer b.mu.Unlock()
+	g := b.gen
+	b.wait++
+	if b.wait >= b.n {
+		b.gen++
+		b.wait = 0
+		b.cond.Broadcast()
+		return
+	}
+	for g == b.gen {
+		b.cond.Wait()
+	}
+}
+
+func (b *c09Barrier) leave() {
+	b.mu.Lock()
+	defer b.mu.Unlock()
+	b.n--
+	if b.n > 0 && b.wait >= b.n {
+		b.gen++
+		b.wait = 0
+		b.cond.Broadcast()
+	}
+}
+
+func c09RunHold(job *c09Job, conc bool) []string {
+	ctx := context.Background()
+	n := job.Threads
+	res := make([]string, n)
+	bar := c09NewBarrier(n)
+	syncFn := func() {}
+	if conc {
+		switch job.Sync {
+		case "barrier":
+			syncFn = bar.arrive
+		case "yield":
+			syncFn = func() {
+				for i := 0; i < 3; i++ {
+					runtime.Gosched()
+				}
+			}
+		case "sleep":
+			syncFn = func() { time.Sleep(200 * time.Microsecond) } // a scheduling perturbation, never a verdict
+		}
+	}
+	options := func(k int) []risor.Option {
+		return []risor.Option{
+			risor.WithGlobal("payload", c09HoldPayload(k, job.PayLen)),
+			risor.WithGlobal("pid", k),
+			risor.WithGlobal("hold_sync", object.NewBuiltin("hold_sync", func(ctx context.Context, args ...object.Object) object.Object {
+				syncFn()
+				return object.Nil
+			})),
+		}
+	}
+	var shared *compiler.Code
+	var sharedErr error
+	if job.Share {
+		shared, sharedErr = c09Compile(job.Srcs[0], options(0))
+	}
+	one := func(k int) {
+		defer bar.leave()
+		defer func() {
+			if r := recover(); r != nil {
+				res[k] = fmt.Sprintf("panic: %v", r)
+			}
+		}()
+		opts := options(k) // own globals
+		if job.Share {
+			if sharedErr != nil {
+				res[k] = "error: " + sharedErr.Error()
+				return
+			}
+			res[k] = c09Show(risor.EvalCode(ctx, shared, opts...))
+			return
+		}
+		res[k] = c09Show(risor.Eval(ctx, job.Srcs[0], opts...))
+	}
+	if !conc {
+		for k := 0; k < n; k++ {
+			one(k)
+		}
+		return res
+	}
+	var wg sync.WaitGroup
+	start := make(chan struct{})
+	for k := 0; k < n; k++ {
+		wg.Add(1)
+		go func(k int) { defer wg.Done(); <-start; one(k) }(k)
+	}
+	close(start)
+	wg.Wait()
+	return res
+}
+
+// c09HoldDiffTags: the operations (tags of c09HoldOps) whose observed values differ
+func c09HoldDiffTags(conc, alone string) []string {
+	var tags []string
+	seen := map[string]bool{}
+	add := func(s string, i int) {
+		if i > len(s) {
+			i = len(s)
+		}
+		j := strings.LastIndex(s[:i], `"<`)
+		if j < 0 {
+			return
+		}
+		e := strings.Index(s[j:], `>"`)
+		if e < 0 {
+			return
+		}
+		t := s[j+2 : j+e]
+		if !seen[t] && c09HoldTag(t) >= 0 {
+			seen[t] = true
+			tags = append(tags, t)
+		}
+	}
+	// walk the two texts entry by entry ("<tag>" starts an entry)
+	ca, aa := strings.Split(conc, `["<`), strings.Split(alone, `["<`)
+	for i := 1; i < len(ca) && i < len(aa); i++ {
+		if ca[i] != aa[i] {
+			add(`"<`+aa[i], 3)
+		}
+	}
+	if len(tags) == 0 {
+		i := 0
+		for i < len(conc) && i < len(alone) && conc[i] == alone[i] {
+			i++
+		}
+		add(alone, i)
+	}
+	return tags
+}
+
 func c09RunJob(job *c09Job, conc bool) []string {
 	switch job.Kind {
 	case "clones":
 		return c09RunClones(job, conc)
 	case "clone-rerun":
 		return c09RunCloneRerun(job, conc)
+	case "hold":
+		return c09RunHold(job, conc)
 	}
 	return c09RunEvals(job, conc)
 }
@@ -762,6 +1031,55 @@ func c09Judge(e *Env, tab *c09Table, caseKey string, rc c09Race) {
 	}
 }
 
+// c09FatalMapSite: for a child killed by "fatal error: concurrent map ...", the innermost risor
+// function of the goroutine that hit the check and the inventoried map it accesses ("" if the
+// function is not one of the converter-registry functions).
+func c09FatalMapSite(stderr string) (fn, loc string) {
+	j := strings.Index(stderr, "fatal error: concurrent map")
+	if j < 0 {
+		return "", ""
+	}
+	rest := stderr[j:]
+	k := strings.Index(rest, "\ngoroutine ")
+	if k < 0 {
+		return "", ""
+	}
+	rest = rest[k+1:]
+	if end := strings.Index(rest, "\n\n"); end >= 0 {
+		rest = rest[:end] // the first stack: the faulting goroutine
+	}
+	for _, line := range strings.Split(rest, "\n")[1:] {
+		if strings.HasPrefix(line, "\t") || strings.HasPrefix(line, "created by") {
+			continue
+		}
+		if p := strings.LastIndexByte(line, '('); p > 0 {
+			line = line[:p] // drop the argument list
+		}
+		if n := c09TableName(line); n != "" && !strings.HasPrefix(n, "main.") {
+			switch n {
+			case "object.createTypeConverter", "object.getTypeConverter":
+				return n, "object.typeConverters"
+			case "object.newGoType":
+				return n, "object.goTypeRegistry"
+			}
+			return "", ""
+		}
+	}
+	return "", ""
+}
+
+// c09KnownRacy: the Impl lockset model has an unordered pair between fn's access to loc and the
+// unlocked writer of loc, and it falls under C09-getconverter-unlocked.
+func c09KnownRacy(e *Env, loc, fn string) bool {
+	writer := map[string]string{"object.typeConverters": "object.createTypeConverter", "object.goTypeRegistry": "object.newGoType"}[loc]
+	for _, w := range []string{"0", "1"} {
+		if e.O.Ask("C09", "pair", loc, fn, w, loc, writer, "1") == "racy\tC09-getconverter-unlocked" {
+			return true
+		}
+	}
+	return false
+}
+
 func c09_rw(w bool) string {
 	if w {
 		return "write"
@@ -779,6 +1097,7 @@ func c09_b01(b bool) string {
 
 type c09Runner struct {
 	bin     string
+	plain   string // this binary itself (no race detector)
 	race    bool
 	tmp     string
 	n       int
@@ -800,7 +1119,11 @@ func (r *c09Runner) run(job *c09Job) (results []string, races []c09Race, stderr 
 	logPrefix := filepath.Join(r.tmp, fmt.Sprintf("race-%d", id))
 	ctx, cancel := context.WithTimeout(context.Background(), r.timeout)
 	defer cancel()
-	cmd := exec.CommandContext(ctx, r.bin, "C09-child", jf)
+	bin := r.bin
+	if job.Plain && r.plain != "" {
+		bin = r.plain
+	}
+	cmd := exec.CommandContext(ctx, bin, "C09-child", jf)
 	cmd.Env = append(os.Environ(), "GORACE=halt_on_error=0 log_path="+logPrefix+" history_size=3", "GOMEMLIMIT=2GiB")
 	var so, se bytes.Buffer
 	cmd.Stdout, cmd.Stderr = &so, &se
@@ -850,7 +1173,9 @@ func c09_runC09(e *Env) {
 	e.R.Rule = "a case is a schedule = (program set of 2..16 evaluations, GOMAXPROCS, seed), run once sequentially in-process and once concurrently " +
 		"in a fresh `-race` child process (first-use paths fire once per process); program sets: model-covered statement programs over globals, " +
 		"Go-method calls with 14 first-use parameter types and imports through one shared importer (shared compiled code or separately compiled), " +
-		"snippet programs touching codecs/int+byte caches/errz/os args/importer/proxies, clones of one VM calling a function, and Clone during a re-run; " +
+		"snippet programs touching codecs/int+byte caches/errz/os args/importer/proxies, clones of one VM calling a function, Clone during a re-run, " +
+		"and hold schedules (every evaluation has its own payload, produces values with 1..6 of 39 builtin/module operations, lets the others run at a barrier/yield/sleep, " +
+		"then observes the held values twice; every operation first on its own with 2..4 evaluations on one P, then random mixes, with and without the race detector); " +
 		"non-trivial when >= 2 evaluations touch the same inventoried location (always, by construction, except single-snippet sets without shared state); distinct by the full job text"
 	tab := c09LoadTable(e)
 	if len(tab.byFn) < 10 {
@@ -874,11 +1199,12 @@ func c09_runC09(e *Env) {
 		defer os.Remove(bin)
 	}
 	e.R.H("race_detector", fmt.Sprintf("%v", race))
-	runner := &c09Runner{bin: bin, race: race, tmp: tmp, timeout: 120 * time.Second}
+	self, _ := os.Executable()
+	runner := &c09Runner{bin: bin, plain: self, race: race, tmp: tmp, timeout: 120 * time.Second}
 
-	nModel, nSnip, nClone, nRerun := 60, 40, 8, 2
+	nModel, nSnip, nClone, nRerun, nHold := 60, 40, 8, 2, 60
 	if !e.Quick {
-		nModel, nSnip, nClone, nRerun = 1200, 700, 90, 10
+		nModel, nSnip, nClone, nRerun, nHold = 1200, 700, 90, 10, 900
 	}
 	if !c09CloneRerunScenario {
 		nRerun = 0
@@ -890,6 +1216,7 @@ func c09_runC09(e *Env) {
 		class string
 	}
 	var scheds []sched
+	holds := map[string]c09HoldSpec{}
 	rng := e.Rng.Fork()
 	procsPool := []int{1, 2, 4, 8, 16}
 	for i := 0; i < nModel; i++ {
@@ -939,6 +1266,37 @@ func c09_runC09(e *Env) {
 			job.Calls = append(job.Calls, rng.Intn(100))
 		}
 		scheds = append(scheds, sched{job, fmt.Sprintf("clone-rerun n=%d procs=%d src2=%q calls=%v", n, job.Procs, src2, job.Calls), nil, "clone-rerun"})
+	}
+
+	hrng := e.Rng.Fork() // own stream: the schedules above stay what they were for a given seed
+	// hold schedules: first every operation on its own in the most adverse setting (two
+	// evaluations taking turns on one P, barrier between producing and observing), then mixes
+	for i := 0; i < nHold; i++ {
+		var h c09HoldSpec
+		if i < len(c09HoldOps) {
+			h = c09HoldSpec{n: 2 + hrng.Intn(3), procs: 1, rounds: 1 + hrng.Intn(2), payLen: Pick(hrng, []int{16, 64, 200}), ops: []int{i},
+				sync: "barrier", share: hrng.Bool(), plain: i%2 == 0}
+		} else {
+			h = c09HoldSpec{n: 2 + hrng.Intn(15), procs: Pick(hrng, []int{1, 1, 1, 2, 4, 8, 16}), payLen: Pick(hrng, []int{8, 16, 64, 200, 1000}),
+				sync: Pick(hrng, []string{"barrier", "barrier", "yield", "sleep", "none"}), share: hrng.Chance(60), plain: hrng.Chance(40)}
+			h.rounds = 1 + hrng.Intn(3)
+			if h.sync != "barrier" {
+				h.rounds = 2 + hrng.Intn(20)
+			}
+			k := 1 + hrng.Intn(6)
+			perm := make([]int, len(c09HoldOps))
+			for j := range perm {
+				perm[j] = j
+			}
+			for j := 0; j < k; j++ { // distinct operations: one live result per operation and evaluation
+				x := j + hrng.Intn(len(perm)-j)
+				perm[j], perm[x] = perm[x], perm[j]
+			}
+			h.ops = append([]int(nil), perm[:k]...)
+		}
+		job, key := h.job()
+		scheds = append(scheds, sched{job, key, nil, "hold"})
+		holds[key] = h
 	}
 
 	// sequential reference + oracle, in order (deterministic), then the concurrent children in parallel
@@ -1023,9 +1381,23 @@ func c09_runC09(e *Env) {
 	wg.Wait()
 
 	nDiffNotes := 0
+	minimised := map[string]bool{}
 	for i, s := range scheds {
 		o := outs[i]
-		e.R.Case(s.key, len(s.job.Srcs) >= 2 || len(s.job.Calls) >= 1)
+		e.R.Case(s.key, len(s.job.Srcs) >= 2 || len(s.job.Calls) >= 1 || (s.class == "hold" && s.job.Threads >= 2))
+		if s.class == "hold" {
+			e.R.H("hold_sync", s.job.Sync)
+			e.R.H("hold_race_detector", fmt.Sprintf("%v", !s.job.Plain))
+			for _, o := range holds[s.key].ops {
+				e.R.H("hold_operation", c09HoldOps[o].tag)
+			}
+			for t, r := range refs[i].seq {
+				if !strings.HasPrefix(r, "list:") {
+					e.R.Mismatch(s.key, r, "list:[...]", fmt.Sprintf("hold program of evaluation %d does not evaluate alone (harness menu out of date?)", t))
+					break
+				}
+			}
+		}
 		e.R.H("class", s.class)
 		e.R.H("evaluations_per_schedule", fmt.Sprintf("%02d", s.job.Threads))
 		e.R.H("gomaxprocs", strconv.Itoa(s.job.Procs))
@@ -1054,13 +1426,33 @@ func c09_runC09(e *Env) {
 				(strings.Contains(o.stderr, "(*VirtualMachine).applyOptions") || strings.Contains(o.stderr, "(*VirtualMachine).resetForNewCode") || strings.Contains(o.stderr, "(*VirtualMachine).reloadCode")) {
 				e.R.H("child", "fatal: concurrent map access (Clone during re-run)")
 				e.R.Spec(s.key, "the process was killed by the Go runtime (Clone iterating vm.modules/vm.loadedCode while a re-run of the same VM writes them without cloneMutex)", "C09-clone-during-rerun")
+			} else if fn, loc := c09FatalMapSite(o.stderr); fn != "" && strings.Contains(strings.Join(s.job.Srcs, "\n"), "svc.") && c09KnownRacy(e, loc, fn) {
+				// The goroutine that hit the runtime's map check is inside createTypeConverter /
+				// getTypeConverter / newGoType, possibly on the LOCKED path (NewTypeConverter, NewGoType);
+				// the other party has usually left the map by the time the stacks are dumped, so no
+				// GetConverter frame is left to see.  These functions touch only typeConverters /
+				// goTypeRegistry, the program calls Go methods through a proxy (the only way to
+				// GetConverter), and the Impl lockset model says the only unordered pairs on these
+				// locations are the finding's (oracle `pair`; theorem violations_are_known).
+				e.R.H("child", "fatal: concurrent map access")
+				e.R.Spec(s.key, "the process was killed by the Go runtime (concurrent map access on "+loc+" in "+fn+"; the unlocked party is the GoType.GetConverter path): no evaluation produced its result", "C09-getconverter-unlocked")
 			} else {
 				e.R.H("child", "failed")
+				// the fatal error and the stack of the goroutine that hit it come first, after any race reports
+				head := o.stderr
+				if j := strings.Index(head, "fatal error:"); j >= 0 {
+					head = head[j:]
+				} else if j := strings.Index(head, "panic:"); j >= 0 {
+					head = head[j:]
+				}
+				if len(head) > 1500 {
+					head = head[:1500]
+				}
 				tail := o.stderr
 				if len(tail) > 600 {
 					tail = tail[len(tail)-600:]
 				}
-				e.R.Spec(s.key, fmt.Sprintf("concurrent run did not complete: %v; stderr tail: %s", o.err, tail), "")
+				e.R.Spec(s.key, fmt.Sprintf("concurrent run did not complete: %v; stderr: %s [...] stderr tail: %s", o.err, head, tail), "")
 			}
 			continue
 		}
@@ -1070,11 +1462,66 @@ func c09_runC09(e *Env) {
 			e.R.Mismatch(s.key, fmt.Sprint(len(o.res)), fmt.Sprint(len(seq)), "result count")
 			continue
 		}
+		if s.class == "hold" {
+			// name the operation(s) whose held value changed and look for the smallest schedule that
+			// still shows it: two evaluations, that operation only, one round, barrier, one P
+			h := holds[s.key]
+			var tags []string
+			seenTag := map[string]bool{}
+			for t := range seq {
+				if o.res[t] != seq[t] {
+					for _, tg := range c09HoldDiffTags(o.res[t], seq[t]) {
+						if !seenTag[tg] {
+							seenTag[tg] = true
+							tags = append(tags, tg)
+						}
+					}
+				}
+			}
+			for ti, tg := range tags {
+				if ti >= 3 || minimised[tg] {
+					continue
+				}
+				m := c09HoldSpec{n: 2, procs: 1, rounds: 1, payLen: h.payLen, ops: []int{c09HoldTag(tg)}, sync: "barrier", share: true, plain: h.plain}
+				mjob, mkey := m.job()
+				if mkey == s.key {
+					continue
+				}
+				mseq := c09RunJob(mjob, false)
+				for attempt := 0; attempt < 3 && !minimised[tg]; attempt++ {
+					mres, mraces, _, merr := runner.run(mjob)
+					if merr != nil || len(mres) != len(mseq) {
+						continue
+					}
+					for t := range mseq {
+						if mres[t] != mseq[t] {
+							minimised[tg] = true
+							e.R.Case(mkey, true)
+							e.R.H("class", "hold-minimised")
+							e.R.Spec(mkey, fmt.Sprintf("operation <%s>: evaluation %d (payload %q) held the value across hold_sync() while evaluation %d ran the same operation on its own payload; "+
+								"it then observed %q, alone it observes %q (minimised from: %s)", tg, t, c09HoldPayload(t, m.payLen), 1-t, mres[t], mseq[t], s.key), "")
+							break
+						}
+					}
+					for _, rc := range mraces {
+						c09Judge(e, tab, mkey, rc)
+					}
+				}
+			}
+		}
 		for t := range seq {
 			if s.class == "clone-rerun" && t == 0 {
 				continue // the re-running VM's last result is compared below like the others
 			}
-			if o.res[t] != seq[t] {
+			if o.res[t] != seq[t] && s.class == "hold" {
+				e.R.H("result", "differs")
+				if nDiffNotes < 6 {
+					nDiffNotes++
+					e.R.Note("held value changed: %s: evaluation %d concurrently %q, alone %q", s.key, t, o.res[t], seq[t])
+				}
+				e.R.Spec(s.key, fmt.Sprintf("evaluation %d (payload %q): value(s) held across hold_sync() changed while other evaluations ran (operations %v): concurrently %q, alone %q",
+					t, c09HoldPayload(t, s.job.PayLen), c09HoldDiffTags(o.res[t], seq[t]), o.res[t], seq[t]), "")
+			} else if o.res[t] != seq[t] {
 				e.R.H("result", "differs")
 				if nDiffNotes < 6 {
 					nDiffNotes++
@@ -1096,6 +1543,6 @@ func c09_runC09(e *Env) {
 			e.R.H("sequential_result_type", k)
 		}
 	}
-	e.R.Note("%d schedules (%d model-covered, %d snippet sets, %d clone sets, %d clone-during-rerun), race detector: %v, %d child processes, %d parallel",
-		len(scheds), nModel, nSnip, nClone, nRerun, race, runner.n, par)
+	e.R.Note("%d schedules (%d model-covered, %d snippet sets, %d clone sets, %d clone-during-rerun, %d hold), race detector: %v, %d child processes, %d parallel",
+		len(scheds), nModel, nSnip, nClone, nRerun, nHold, race, runner.n, par)
 }
